@@ -278,7 +278,7 @@ def execute(scn):
     model = model_of(msgs, n)
     before = [msg_digest(m) for m in msgs]
     window_model = None
-    if scn["source"] == "stream" and not scn["table"].get("unsorted"):
+    if scn["source"] == "stream":
         # what is collected is what was configured: one result per configured (stream, module, test) that can run
         runnable, all_keys, window_model = configured_keys(scn)
         missing = sorted(runnable - set(model))
